@@ -106,6 +106,11 @@ var c12Actions = []struct {
 	{"assign-undeclared", "neverDeclared = 1", true, ""},
 	{"division-by-zero", "fnum / fzero", true, ""},
 	{"division-by-zero", "fnum % fzero", true, ""},
+	{"division-by-zero", "7.5 % 0.5", true, ""},
+	{"division-by-zero", "ffloat % fhalf", true, ""},
+	{"division-by-zero", "fnum % 0.25", true, ""},
+	{"nil-deref", "fembnil.PName", true, ""},
+	{"nil-deref", "fuser.Friend.Name", true, ""},
 	{"function-error", `failfn("boom")`, false, ""},
 	{"function-error", `"boom" | failfn`, false, ""},
 	{"function-error", `exec("/no/such/template.jet")`, false, ""},
@@ -140,7 +145,7 @@ func (g *c12Gen) filler() []*mj.Node {
 		case 3:
 			out = append(out, mj.Text("  \n\t\n"))
 		case 4:
-			out = append(out, mj.Let(g.id("fv"), mj.Num(1)))
+			out = append(out, mj.Let(g.id("fv"), mj.Num(1)), mj.Print(mj.Chain(mj.Var("fembok"), "PName")))
 		case 5:
 			out = append(out, mj.Text(g.id("t")), mj.Print(mj.Var("fnum")), mj.Text(" same line "))
 		case 6:
@@ -180,6 +185,10 @@ func genC12(t *rapid.T) c12Case {
 	g.p.Vars["fstr"] = mj.RStr("str")
 	g.p.Vars["fzero"] = mj.RInt(0)
 	g.p.Vars["fneg"] = mj.RInt(-1)
+	g.p.Vars["ffloat"] = mj.RFloat(7.5)
+	g.p.Vars["fhalf"] = mj.RFloat(0.5)
+	g.p.Vars["fembnil"] = mj.Recipe{T: "emb", S: ""}
+	g.p.Vars["fembok"] = mj.Recipe{T: "emb", S: "promoted"}
 	g.p.Vars["fmap"] = mj.Recipe{T: "map[string]int", Keys: []string{"k"}, Is: []int64{1}}
 	g.p.Vars["fch"] = mj.Recipe{T: "chan int", Is: []int64{1}}
 	d := mj.Recipe{T: "user", S: "ctxuser"}
